@@ -480,3 +480,70 @@ def c11_job(chk, rng, i):
     cfg = {"flavour": fl, "flexargs": ()}
     return {"case": case, "configs": [cfg], "inputs": inputs,
             "features": ["nslot:%d" % nslot]}
+
+
+# ---------------------------------------------------------------------------- C03
+def c03_job(chk, rng, i):
+    p = gen.default_profile()
+    p["nrules"] = (2, 8)
+    p["depth"] = 2
+    p["trail"] = 15
+    p["bol"] = 15
+    reject_case = (i % 6 == 5)
+    g, case = base_case(chk, rng, p)
+    f = {"ret": 25, "more": 15}
+    if reject_case:
+        f = {"ret": 20, "reject": 40}
+    scripts.decorate(case, rng, f)
+    # a long-token rule so that tokens outgrow small buffers
+    case["rules"].append({"scs": None, "bol": False,
+                          "pat": ("plus", ("ccl", False, [("c", 120), ("c", 121)])),
+                          "trail": None, "act": []})
+    case["driver"] = {"init": [("open_buf", 0)]}
+    ctx = gen.ctx_of(case)
+    inputs = []
+    for k in range(5):
+        s = g.make_input(case, ctx, maxlen=90)
+        if rng.chance(50):
+            pos = rng.below(len(s) + 1)
+            s = s[:pos] + bytes(rng.choice(b"xy") for _ in range(rng.choice([5, 20, 70, 200]))) + s[pos:]
+        if reject_case:
+            s = s.replace(b"x", b"q").replace(b"y", b"q")   # REJECT buffers do not grow
+        scheds = [[1], [0], [rng.rint(1, 8) for _ in range(5)], [1, 2, 4, 8, 16, 32], [3]]
+        bufs = [0, 1, 2, 3, 7, 16, 64]
+        if reject_case:
+            bufs = [0, 256, 512]
+        combos = [(rng.choice(scheds), rng.choice(bufs)) for _ in range(4)] + [([1], 1), ([0], 0)]
+        for sch, bs in combos:
+            inputs.append({"sources": [s], "sched": sch, "bufsize": bs, "key": k})
+    fl = rotate(i, FLAV3)
+    tb = rotate(i // 3, ["", "-Cem", "-C", "-Cfe", "-CFe", "-Ca"])
+    if reject_case:
+        tb = rotate(i // 3, ["", "-Cem", "-C"])
+    full = ("f" in tb or "F" in tb)
+    base = {"flavour": fl, "flexargs": lib.tables_args(tb, 8)}
+    configs = [dict(base)]
+    kind = i % 4
+    # other input paths (default back end): stdio batch, stdio interactive (getc), read(2)
+    if kind == 1:
+        configs.append({"flavour": "nr", "flexargs": lib.tables_args(tb, 8),
+                        "opts": {"input": "stdio", "never_interactive": True}})
+    elif kind == 2 and not full:
+        configs.append({"flavour": "nr", "flexargs": lib.tables_args(tb, 8),
+                        "opts": {"input": "stdio", "always_interactive": True}})
+    elif kind == 3:
+        configs.append({"flavour": "r", "flexargs": lib.tables_args(tb, 8),
+                        "opts": {"input": "stdio", "use_read": True},
+                        "input_flags": 2, "input_filter": lambda inp: inp["sched"] == [0]})
+    # interactive scanners must not over-read (1-byte reads, single plain source)
+    if not full and not reject_case and not any(r["act"] != "|" and r["act"] and
+                                                any(o[0] == "if" and o[4][0][0] == "more"
+                                                    for o in r["act"]) for r in case["rules"]):
+        configs.append({"flavour": fl, "flexargs": lib.tables_args(tb, 8) + ("-I",),
+                        "opts": {"interactive": True}, "input_flags": 1, "deliv": True,
+                        "input_filter": lambda inp: inp["sched"] == [1]})
+    feats = ["tables:" + (tb or "default"), "kind:%d" % kind]
+    if reject_case:
+        feats.append("reject_scanner")
+    return {"case": case, "configs": configs, "inputs": inputs, "skip_if": dangerous,
+            "expect_build": std_refusals(tb), "features": feats}
